@@ -14,6 +14,7 @@ import (
 	"strconv"
 	"strings"
 	"sync"
+	"syscall"
 	"time"
 
 	"github.com/avfs/avfs/verifrt"
@@ -114,6 +115,15 @@ func parseRace(txt string) []string {
 // runShard explores the programs of one shard.
 func runShard(pl Plan, shard, nshard int, outPath, curPath string, deadline time.Time) {
 	verifrt.SetMode(verifrt.ModeSched)
+
+	// code under test that allocates without end must kill this shard ("fatal
+	// error: out of memory", attributed to the current program), not the machine.
+	// The race detector reserves terabytes of address space: no limit there, the
+	// parent watches the resident size instead.
+	if pl.Oracle != OrRace {
+		lim := syscall.Rlimit{Cur: 6 << 30, Max: 6 << 30}
+		_ = syscall.Setrlimit(syscall.RLIMIT_AS, &lim)
+	}
 
 	so := shardOut{Outcomes: map[string]int{}, MinBound: 1 << 30}
 
@@ -628,7 +638,32 @@ func RunPlan(pl Plan, rep *kf.Reporter, budgetS int) (total Totals, herr string)
 
 			cmd.Stderr = &stderr
 			cmd.Stdout = os.Stdout
-			err := cmd.Run()
+
+			err := cmd.Start()
+			memKilled := false
+
+			if err == nil {
+				done := make(chan error, 1)
+				go func() { done <- cmd.Wait() }()
+
+				tick := time.NewTicker(250 * time.Millisecond)
+
+			wait:
+				for {
+					select {
+					case err = <-done:
+						break wait
+					case <-tick.C:
+						if rssBytes(cmd.Process.Pid) > 5<<30 {
+							memKilled = true
+
+							_ = cmd.Process.Kill()
+						}
+					}
+				}
+
+				tick.Stop()
+			}
 
 			mu.Lock()
 			defer mu.Unlock()
@@ -644,6 +679,10 @@ func RunPlan(pl Plan, rep *kf.Reporter, budgetS int) (total Totals, herr string)
 				}
 
 				m := regexp.MustCompile(`fatal error: [^\n]*`).FindString(stderr.String())
+
+				if memKilled {
+					kind, m = "fatal-error", "fatal error: out of memory (resident size above 5 GiB, killed by the harness)"
+				}
 				rep.Report(kf.Sig{"kind": kind, "prog": string(cur), "msg": StripDetail(m)}, map[string]any{"program_text": string(cur), "stderr": msg})
 
 				return
@@ -840,6 +879,23 @@ func AddCoverage(cov map[string]any, total Totals, bound int) {
 	cov["max_scheduling_points"] = total.MaxPoints
 }
 
+// rssBytes returns the resident set size of a process (0 if unknown).
+func rssBytes(pid int) int64 {
+	b, err := os.ReadFile(fmt.Sprintf("/proc/%d/statm", pid))
+	if err != nil {
+		return 0
+	}
+
+	f := strings.Fields(string(b))
+	if len(f) < 2 {
+		return 0
+	}
+
+	n, _ := strconv.ParseInt(f[1], 10, 64)
+
+	return n * int64(os.Getpagesize())
+}
+
 func tail(s string, n int) string {
 	sc := bufio.NewScanner(strings.NewReader(s))
 	sc.Buffer(make([]byte, 1<<20), 1<<20)
@@ -849,8 +905,11 @@ func tail(s string, n int) string {
 		lines = append(lines, sc.Text())
 	}
 
-	if len(lines) > n {
-		lines = lines[len(lines)-n:]
+	if len(lines) > 3*n {
+		// the cause is at the top (fatal error / panic line and the stack of the
+		// goroutine that hit it), the rest is the dump of the other goroutines
+		head := append([]string{}, lines[:2*n]...)
+		lines = append(append(head, "[...]"), lines[len(lines)-n:]...)
 	}
 
 	return strings.Join(lines, "\n")
